@@ -37,7 +37,9 @@ var testifyAPI = map[string]bool{"EXPECT": true, "Mock": true, "On": true, "Call
 
 func gen(t *rapid.T) Case {
 	r := progen.GenRendering(t)
-	r.Formatter = "goimports"
+	if rapid.IntRange(0, 2).Draw(t, "goimports") > 0 {
+		r.Formatter = "goimports"
+	}
 	o := progen.Opts{BenignNames: true, Avoid: map[string]bool{"srcpkg:mock": true, "pkg:mockp": true}}
 	if r.InPackage() && rapid.IntRange(0, 2).Draw(t, "unexported") == 0 {
 		o.AllowUnexported = true
@@ -45,7 +47,9 @@ func gen(t *rapid.T) Case {
 	if r.Template == "testify" {
 		o.MethodFilter = func(n string) bool { return testifyAPI[n] }
 	}
-	return Case{Mod: progen.Gen(t, o), R: r}
+	mod := progen.Gen(t, o)
+	r.GenIfaceData(t, &mod)
+	return Case{Mod: mod, R: r}
 }
 
 func mockName(iface string) string {
@@ -199,9 +203,13 @@ func run(c Case) *vh.Violation {
 		return vh.Violate(c.R.Template+"/"+key, format, a...).With(vh.ReadTree(dir), obs)
 	}
 	if res.Exit != 0 {
+		// no mock at all for a valid module: the mock cannot implement anything (C01 reports the same root cause)
 		progen.AssertSourceCompiles(dir, c.R.BuildTags(), outs)
-		vh.DontCare("c01:mockery-exit-nonzero")
-		return nil
+		if res.Panicked() {
+			return fail("no-mock/panic", "mockery panicked on a valid module, no mock was produced")
+		}
+		msg := progen.LastError(res.Stderr)
+		return fail("no-mock/exit/"+progen.NormDiag(msg), "mockery exited %d on a valid module, no mock was produced: %s", res.Exit, msg)
 	}
 	// the generated files alone must compile (otherwise it is C01's business) …
 	ok, first, out := progen.TypeCheck(dir, c.R.BuildTags(), outs)
@@ -209,9 +217,10 @@ func run(c Case) *vh.Violation {
 		if implRe.MatchString(out) {
 			return fail("ensure/"+progen.NormDiag(implLine(out)), "the generated file's own ensure line fails: %s", implLine(out))
 		}
-		vh.DontCare("c01:generated-file-does-not-compile")
-		_ = first
-		return nil
+		// a mock that does not compile implements nothing (C01 reports the same root cause)
+		v := fail("no-mock/compile/"+progen.NormDiag(first), "the generated mock does not compile, so it does not implement its interface: %s", first)
+		v.Observed += "\n--- go vet\n" + vh.Trunc(out, 3000)
+		return v
 	}
 	// … declaration counts …
 	for outFile, names := range expected {
